@@ -51,6 +51,23 @@ class Node(object):
             s = s[:107] + "..."
         return "%s[%s]" % (self.kind, s)
 
+    def ctext(self):
+        """text() with a branch expressed canonically: negations are folded
+        into the branch kind, so `false[not x]` and `true[x]` (the two ways of
+        writing the same arm) read the same."""
+        if self.kind not in ("true", "false"):
+            return self.text()
+        from . import canon
+        e = canon.normalize(self.ast)
+        kind = self.kind
+        while isinstance(e, ast.UnaryOp) and isinstance(e.op, ast.Not):
+            e = e.operand
+            kind = "false" if kind == "true" else "true"
+        s = canon.ctext(e)
+        if len(s) > 110:
+            s = s[:107] + "..."
+        return "%s[%s]" % (kind, s)
+
     def __repr__(self):
         return "<%d:%s@%s>" % (self.id, self.text(), self.lineno)
 
